@@ -7,35 +7,58 @@ System under test: the instruction sequences `chibicc -S` emits for tiny bodies 
   runtime    harness/c16_rt.[cS]  virtual threads = coroutines in one OS thread; an access is a scheduling point iff
                                  it touches the registered atomic object or lies outside the running thread's stack;
                                  DFS over ALL schedules with replay from the initial state, preemption bound b or
-                                 unbounded; every 1000th schedule re-executed and compared event by event
-  oracle     (here)              brute-force linearizability of each distinct call/return history (<= 6 operations)
-                                 against a sequential specification written from C11 6.5.16.2, 6.5.2.4, 6.5.3.1,
-                                 7.17.7; final object value included; unlocked RMW on the atomic object, livelock,
-                                 modified neighbour bytes and a fault/hang of the code under test are reported directly
+                                 unbounded; every 1000th schedule re-executed and compared event by event.
+                                 Guard bytes (0xA5) directly before and after every atomic object and every
+                                 expected-value object, in every storage, examined after every operation; bodies are
+                                 entered through a trampoline that keeps the callee-saved registers and %rsp in static
+                                 memory, compares them after the return and restores them
+  oracle     (here)              in this order: unlocked RMW on the atomic object; a side-effecting operand not
+                                 evaluated exactly once (C11 7.1.4, 6.5.16.2); modified guard bytes; callee-saved register
+                                 not preserved; brute-force linearizability of each distinct call/return history
+                                 (<= 6 operations) against a sequential specification written from C11 6.5.16.2, 6.5.2.4,
+                                 6.5.3.1, 7.17.7 (final object value included), refined by the failure report of
+                                 compare-exchange: a failed one must report a value the object can hold, a failed strong
+                                 one never the expected value; livelock; fault/hang of the code under test
 
 Enumerated (every combination inside the stated bounds, no sampling):
   types      signed/unsigned 1, 2, 4, 8 byte integers, _Bool, int *, float, double                       (TYPES)
   lvalues    *p  g  s.m  p->m  a[i]  automatic object  member of an automatic struct                     (FORMS)
+             (guards: the rest of the arena / two guard objects defined around g / the other members and the padding of
+             the struct / the other array elements / two automatic char arrays around the automatic object)
   operations op= (+ - * / % & | ^ << >>; + - * / for floating types), pre/post ++/--, atomic_fetch_{add,sub,or,xor,and}
              [_explicit], atomic_exchange[_explicit] (operand converted by the body / long / int expression),
-             atomic_flag_test_and_set, atomic_compare_exchange_{strong,weak} (desired value converted by the body /
-             int expression), a compare-exchange retry loop, a Treiber-stack push                        (ops_for)
+             atomic_flag_test_and_set[_explicit], atomic_compare_exchange_{strong,weak} (desired value converted by the
+             body / int expression), a compare-exchange retry loop, a Treiber-stack push; the remaining macros of
+             <stdatomic.h> with an object or value operand: atomic_load/store[_explicit], atomic_init,
+             atomic_flag_clear[_explicit] (alone and mixed with read-modify-write operations)              (ops_for)
   operands   every operand POSITION of every operation - A: the expression designating the object (p of *p and p->m,
              i of a[i]); E: the address of the expected-value object; D: the value operand (right operand of op=,
-             operand of fetch_*/exchange, desired value of compare_exchange) - filled with every operand KIND:
-             a load from thread-private memory (default), an integer constant (D), the result of a chibicc-compiled
-             helper with 1 / 5 / 7 integer parameters, of one with double+float parameters, of vp_clobber() (poisons
-             every caller-saved GP and SSE register and the flags), and an expression with two nested atomic
-             operations on a private _Atomic long.  quick: one position at a time and call5/clob/nest in all positions
-             at once on *p, clob/nest designators on p->m and a[i]; thorough: the same on five lvalue forms with
-             every kind in all positions at once, plus the full cross product (7 x 7 x 8 kinds) on *p for one
-             operation per family on int, long, int *, double                                            (operand_keys)
+             operand of fetch_*/exchange/store/init, desired value of compare_exchange) - filled with every operand
+             KIND: a load from thread-private memory (default), an integer constant (D), the result of a
+             chibicc-compiled helper with 1 / 5 / 7 integer parameters, of one with double+float parameters, of
+             vp_clobber() (poisons every caller-saved GP and SSE register and the flags), an expression with two nested
+             atomic operations on a private _Atomic long, and two kinds WITH A SIDE EFFECT: inc (`*q++`, `(q++)->m`,
+             `a[i++]`, `q++` for the expected address, `a++` for the value) and cnt (a call that counts its
+             invocations); the body reports the number of evaluations of each such operand, exactly one is required.
+             quick: one position at a time and call5/clob/nest/inc/cnt in all positions at once on *p, clob/nest/inc/cnt
+             designators on p->m and a[i]; thorough: the same on five lvalue forms with every kind in all positions at
+             once, plus the full cross product of the pure kinds (7 x 7 x 8) and of the side-effecting kinds (3 x 3 x 4)
+             on *p for one operation per family on int, long, int *, double                              (operand_keys)
+  expected   storage of the expected-value object of every compare-exchange form: automatic object between two
+             automatic char arrays (default, every program), member of an automatic struct between two members,
+             element of an automatic array, last automatic object of the body, thread-private static memory; quick: on
+             *p; thorough: on five lvalue forms and, on *p, crossed with every kind of the expected-address operand
+                                                                                                          (STORAGES)
   programs   1x2, 2x1, 2x2, 3x1 (3x2) threads x operations, all schedules or preemption-bounded (plan()); the second
              compare-exchange of a 1x2 program has a stale expected value, so the failure (write-back) path runs
-             with every operand kind (vacuity guard: operand_kinds[*].schedules_with_failed_cas > 0)
+             with every operand kind and every storage (vacuity guard: operand_kinds[*].schedules_with_failed_cas > 0)
   floating   values travel through the long interface in quarters and are chosen so that every result is an exact
-             multiple of 0.25: the specification needs no rounding; compare-exchange compares representations
-Signature: C16|<op family>[/float]|<lvalue form>[;<operand positions filled with a call or nested atomic>]|<deviation class>
+             multiple of 0.25: the specification needs no rounding; compare-exchange compares representations.
+             Representation forms (cas_sr, cas_wr, xchg_r, casloop_r): expected/desired/returned values are object
+             representations - quiet NaNs with payloads of both signs (bit-identical NaN must be exchanged, a retry
+             loop on a NaN must terminate), -0.0 against +0.0 (must fail and report -0.0)                  (RAW_OPS)
+Signature: C16|<op family>[/float]|<lvalue form>[;<operand positions filled with a non-default kind, S = non-default
+           storage of the expected-value object>]|<deviation class>
 """
 import json, os, re, struct, sys, itertools
 
@@ -71,17 +94,23 @@ FETCH = ["add", "sub", "or", "xor", "and"]
 
 FLT_OPS = ["add", "sub", "mul", "div", "preinc", "postinc", "predec", "postdec", "xchg", "xchg_x", "xchg_i",
            "cas_s", "cas_w", "cas_i", "casloop"]
+# floating objects, values handed over and returned as object REPRESENTATIONS (NaN payloads, negative zero):
+RAW_OPS = ["cas_sr", "cas_wr", "xchg_r", "casloop_r"]
+RAW_AS = {"cas_sr": "cas_s", "cas_wr": "cas_w", "xchg_r": "xchg", "casloop_r": "xchg"}   # sequential specification
+# the macros of <stdatomic.h> that are not read-modify-write operations but have object / value operands
+PLAIN_OPS = ["load", "load_x", "store", "store_x", "init"]
+CAS_OPS = ("cas_s", "cas_w", "cas_i", "cas_sr", "cas_wr")
 
 
 def ops_for(tn):
     kind = TINFO[tn][4]
     if kind == "bool":
-        return ["and", "or", "xor", "xchg", "xchg_x", "cas_s", "cas_w", "tas"]
+        return ["and", "or", "xor", "xchg", "xchg_x", "cas_s", "cas_w", "tas", "tas_x", "clear", "clear_x"] + PLAIN_OPS
     if kind == "ptr":
-        return ["add", "sub", "preinc", "postinc", "predec", "postdec", "xchg", "xchg_x", "cas_s", "cas_w", "casloop"]
+        return ["add", "sub", "preinc", "postinc", "predec", "postdec", "xchg", "xchg_x", "cas_s", "cas_w", "casloop"] + PLAIN_OPS
     if kind == "flt":
-        return list(FLT_OPS)
-    return (list(COMPOUND) + ["preinc", "postinc", "predec", "postdec"] + ["f" + f for f in FETCH] +
+        return list(FLT_OPS) + RAW_OPS + PLAIN_OPS
+    return (list(COMPOUND) + PLAIN_OPS + ["preinc", "postinc", "predec", "postdec"] + ["f" + f for f in FETCH] +
             ["f" + f + "_x" for f in FETCH] + ["xchg", "xchg_x", "xchg_l", "cas_s", "cas_w", "casloop"] +
             (["xchg_i", "cas_i"] if TINFO[tn][2] == 8 else []))
 
@@ -93,9 +122,13 @@ def family(op):
         return "incdec"
     if op in ("xchg_i", "cas_i"):                                 # operand of type int, converted by the operation
         return "exchange-int-operand" if op == "xchg_i" else "cas-int-operand"
+    if op in RAW_OPS:
+        return {"cas_sr": "cas", "cas_wr": "cas", "xchg_r": "exchange", "casloop_r": "casloop"}[op] + "-representation"
+    if op in PLAIN_OPS or op in ("clear", "clear_x"):
+        return "load" if op.startswith("load") else "store"
     if op.startswith("f"):
         return "fetch"
-    if op.startswith("xchg") or op == "tas":
+    if op.startswith("xchg") or op in ("tas", "tas_x"):
         return "exchange"
     if op.startswith("cas_"):
         return "cas"
@@ -106,7 +139,7 @@ def family(op):
 # Every operation has up to three operand positions:
 #   A  the expression that designates the object (pointer p of *p and p->m, index i of a[i])
 #   E  the address of the expected-value object (compare_exchange strong/weak, CAS loop)
-#   D  the value operand (right operand of op=, operand of fetch_*/exchange, desired value of compare_exchange)
+#   D  the value operand (right operand of op=, operand of fetch_*/exchange/store/init, desired value of compare_exchange)
 # and every position is filled with an operand kind:
 #   priv   (default) a load from thread-private memory: the parameters p and a, the address of a local
 #   const  (D only)  an integer constant expression
@@ -117,16 +150,37 @@ def family(op):
 #          register and RFLAGS, as the psABI allows any callee to do
 #   nest   an expression with two nested atomic operations (atomic_fetch_add then atomic_fetch_sub, i.e. two inner
 #          compare-exchange loops) on a thread-private _Atomic long
+#   inc    an expression with a SIDE EFFECT on a private object: A: `*q++`, `(q++)->m`, `a[i++]`; E: `q++` (q points to
+#          the expected-value object); D: `a++`
+#   cnt    the result of hc(&n, x), a helper that counts its invocations in the private counter n
+# The side-effecting kinds carry a second oracle: C11 7.1.4 - a library function implemented as a macro evaluates each
+# argument exactly once (and 6.5.16.2/6.5.2.4/6.5.3.1: the operand of op=, ++, -- is evaluated once).  The body hands
+# the number of evaluations of every such operand to the runtime (vp_body_end); a number other than 1 is a deviation
+# of its own.  They are not combined with the retry loops written in the body (casloop), whose operands are
+# evaluated once per iteration by construction.
 # All helpers touch only private memory, so they add no scheduling points; each wrapper returns the wrapped value
 # unchanged, so the sequential specification of the operation is the same for every kind.
-KINDS = ["call1", "call5", "call7", "callf", "clob", "nest"]
+PURE_KINDS = ["call1", "call5", "call7", "callf", "clob", "nest"]
+SIDE_KINDS = ["inc", "cnt"]
+KINDS = PURE_KINDS + SIDE_KINDS
 POSITIONS = "AED"
 A_FORMS = ("deref", "pmember", "aindex")                          # forms whose designator has a sub-expression
+# S: the storage of the expected-value object.  Guard bytes lie directly before and after it in every storage; they
+# are checked by the runtime when the body ends (G= of the history).
+#   local   (default) automatic object declared between two automatic char arrays
+#   member  member of an automatic struct, between two other members
+#   elem    element 1 of an automatic array of 3
+#   last    the last automatic object the body declares (chibicc puts it next to the saved frame pointer; the runtime
+#           checks the callee-saved registers and %rsp after every body: R= of the history)
+#   static  thread-private static memory handed out by the runtime (vp_static)
+STORAGES = ["member", "elem", "last", "static"]
+ARRAY_LEN = 6                                                      # a[1] is the object; a[i++] evaluated 3 times stays inside
 
 HELPERS = """static L h1(L a) { return a; }
 static L h5(L a, L b, L c, L d, L e) { return a + b + c + d - 6 + (e == 0); }
 static L h7(L a, L b, L c, L d, L e, L f, L g) { return a + b + c + d + e + f + g - 21; }
 static L hf(L a, double x, float y, double z) { return a + (L)(x + y + z) - 7; }
+static L hc(L *n, L x) { ++*n; return x; }
 L vp_clobber(L);
 """
 
@@ -136,7 +190,11 @@ def ok_parse(okey):
 
 
 def ok_key(ok):
-    return ",".join("%s=%s" % (pos, ok[pos]) for pos in POSITIONS if ok.get(pos, "priv") != "priv")
+    return ",".join("%s=%s" % (pos, ok[pos]) for pos in POSITIONS + "S" if ok.get(pos, "priv") not in ("priv", "local"))
+
+
+def has_expected(op):
+    return op in CAS_OPS or op in ("casloop", "casloop_r")
 
 
 def positions(op, form):
@@ -144,11 +202,28 @@ def positions(op, form):
     pos = ""
     if form in A_FORMS:
         pos += "A"
+    if op in RAW_OPS:                                             # representations travel through memory, not operands
+        return pos
     if op in ("cas_s", "cas_w", "cas_i", "casloop"):
         pos += "E"
-    if family(op) != "incdec" and op != "tas":
+    if family(op) != "incdec" and op not in ("tas", "tas_x", "load", "load_x", "clear", "clear_x"):
         pos += "D"
     return pos
+
+
+def key_allowed(op, form, okey):
+    ok = ok_parse(okey)
+    for pos, kind in ok.items():
+        if pos == "S":
+            if not has_expected(op) or kind not in STORAGES:
+                return False
+            if kind == "last" and ok.get("E", "priv") != "priv":
+                return False                                      # the operand kinds declare objects of their own
+        elif pos not in positions(op, form):
+            return False
+        elif kind in SIDE_KINDS and op in ("casloop", "casloop_r"):
+            return False
+    return True
 
 
 def kind_wrap(kind, pos, x):
@@ -167,13 +242,25 @@ def kind_wrap(kind, pos, x):
         return "", "vp_clobber(%s)" % x
     if kind == "nest":
         return "_Atomic L nv%s = 1000; " % pos, "(%s + (atomic_fetch_add(&nv%s, 3), atomic_fetch_sub(&nv%s, 3)) - 1003)" % (x, pos, pos)
+    if kind == "cnt":
+        return "L n%s = 0; " % pos, "hc(&n%s, %s)" % (pos, x)
     raise core.HarnessError("unknown operand kind " + kind)
 
 
+AUTO_DECL = {"auto": "char go0[8]; _Atomic T_%(tn)s x; char go1[8]; vp_guard(5, go0, 8, 0, 0); vp_guard(6, go1, 8, 0, 0); "
+                     "vp_auto_begin(&x, sizeof x); ",
+             "automember": "struct S_%(tn)s s; vp_guard(4, &s, sizeof s, &s.m, sizeof s.m); vp_auto_begin(&s.m, sizeof s.m); "}
+
+
 def lvalue(tn, form, akind="priv"):
-    """-> (declarations inside the body, lvalue expression)"""
+    """-> (declarations inside the body, lvalue expression, expression counting the evaluations of the designator or None)"""
     if akind != "priv" and form not in A_FORMS:
         raise core.HarnessError("form %s has no designator operand" % form)
+    if akind == "inc":
+        return {"deref": ("_Atomic T_%s *qA = p; " % tn, "(*qA++)", "(qA - (_Atomic T_%s *)p)" % tn),
+                "pmember": ("struct S_%s *qA = p; " % tn, "(qA++)->m", "(qA - (struct S_%s *)p)" % tn),
+                "aindex": ("int iA = 1; ", "ga_%s[iA++]" % tn, "(iA - 1)")}[form]
+    cnt = "nA" if akind == "cnt" else None
     d, pa = kind_wrap(akind, "A", "(L)p")
     if akind != "priv":
         pa = "(void *)" + pa
@@ -181,15 +268,32 @@ def lvalue(tn, form, akind="priv"):
         pa = "p"
     if form == "aindex":
         if akind == "priv":
-            return "int i = 1; ", "ga_%s[i]" % tn
+            return "int i = 1; ", "ga_%s[i]" % tn, None
         d, ia = kind_wrap(akind, "A", "1L")
-        return d, "ga_%s[%s]" % (tn, ia)
-    return {"deref": (d, "(*(_Atomic T_%s *)%s)" % (tn, pa)),
-            "global": ("", "g_%s" % tn),
-            "gmember": ("", "gs_%s.m" % tn),
-            "pmember": (d, "((struct S_%s *)%s)->m" % (tn, pa)),
-            "auto": ("_Atomic T_%s x; vp_auto_begin(&x, sizeof x); " % tn, "x"),
-            "automember": ("struct S_%s s; vp_auto_begin(&s.m, sizeof s.m); " % tn, "s.m")}[form]
+        return d, "ga_%s[%s]" % (tn, ia), cnt
+    if form in AUTO_DECL:
+        return AUTO_DECL[form] % {"tn": tn}, "x" if form == "auto" else "s.m", None
+    return {"deref": (d, "(*(_Atomic T_%s *)%s)" % (tn, pa), cnt),
+            "global": ("", "g_%s" % tn, None),
+            "gmember": ("", "gs_%s.m" % tn, None),
+            "pmember": (d, "((struct S_%s *)%s)->m" % (tn, pa), cnt)}[form]
+
+
+def expected_object(T, storage, var):
+    """-> (declarations incl. registration of the guard bytes, lvalue of the expected-value object, its address)"""
+    if storage == "local":
+        return ("char ge0[8]; %s %s; char ge1[8]; vp_guard(2, ge0, 8, 0, 0); vp_guard(3, ge1, 8, 0, 0); " % (T, var),
+                var, "&" + var)
+    if storage == "member":
+        return ("struct { char g0[8]; %s x; char g1[8]; } sx; vp_guard(1, &sx, sizeof sx, &sx.x, sizeof sx.x); " % T,
+                "sx.x", "&sx.x")
+    if storage == "elem":
+        return "%s ax[3]; vp_guard(1, ax, sizeof ax, &ax[1], sizeof ax[1]); " % T, "ax[1]", "&ax[1]"
+    if storage == "last":
+        return "char ge0[8]; %s %s; vp_guard(2, ge0, 8, 0, 0); " % (T, var), var, "&" + var
+    if storage == "static":
+        return "%s *px = vp_static(sizeof(%s)); " % (T, T), "(*px)", "px"
+    raise core.HarnessError("unknown storage " + storage)
 
 
 def literal(v):
@@ -208,27 +312,40 @@ def body_name(tn, form, op, okey="", const=None):
 
 def body_text(tn, form, op, okey="", const=None):
     """C text of one body:  long f(void *p, long a, long *e).  okey: operand kinds of the positions that are not
-    'priv' ("A=call5,D=nest"); const = the constant (a long) for D=const."""
+    'priv' and the storage of the expected-value object ("A=call5,D=nest,S=member"); const = the constant (a long)
+    for D=const."""
     kind = TINFO[tn][4]
     T = "T_%s" % tn
     ok = ok_parse(okey)
-    for pos in ok:
-        if pos not in positions(op, form):
-            raise core.HarnessError("%s/%s has no operand position %s" % (op, form, pos))
-    decl, lv = lvalue(tn, form, ok.get("A", "priv"))
+    if not key_allowed(op, form, okey):
+        raise core.HarnessError("%s/%s does not take the operand key %s" % (op, form, okey))
+    decl, lv, cntA = lvalue(tn, form, ok.get("A", "priv"))
+    cntE = cntD = None
     dkind = ok.get("D", "priv")
     if dkind == "const":
         aexpr = literal(const)
+    elif dkind == "inc":
+        decl += "L a0 = a; "
+        aexpr, cntD = "a++", "(a - a0)"
     else:
         d, aexpr = kind_wrap(dkind, "D", "a")
         decl += d
+        cntD = "nD" if dkind == "cnt" else None
     conv = "FROM(%s)" % aexpr                                      # the operand converted to T by the body
     rhs = aexpr if kind == "ptr" else conv                         # pointer +/- integer
     pre = ""
+    guarded = form in AUTO_FORMS
 
-    def eaddr(var):
-        d, x = kind_wrap(ok.get("E", "priv"), "E", "(L)&" + var)
-        return d, ("&" + var if "E" not in ok else "(%s *)%s" % (T, x))
+    def eaddr(addr):
+        """the expected-address operand for the address expression addr -> (declarations, operand, count expression)"""
+        ek = ok.get("E", "priv")
+        if ek == "priv":
+            return "", addr, None
+        if ek == "inc":
+            return "%s *qE = %s; " % (T, addr), "qE++", "(qE - (%s))" % addr
+        d, x = kind_wrap(ek, "E", "(L)" + addr)
+        return d, "(%s *)%s" % (T, x), ("nE" if ek == "cnt" else None)
+    X = "memory_order_seq_cst"
     if op in COMPOUND:
         expr = "TO(%s %s= %s)" % (lv, COMPOUND[op], rhs)
     elif op in ("preinc", "predec"):
@@ -243,46 +360,85 @@ def body_text(tn, form, op, okey="", const=None):
         elif op == "xchg_i":
             expr = "TO(atomic_exchange(&%s, (int)%s + 0))" % (lv, aexpr)
         else:
-            expr = "TO(atomic_exchange_explicit(&%s, %s, memory_order_seq_cst))" % (lv, conv)
+            expr = "TO(atomic_exchange_explicit(&%s, %s, %s))" % (lv, conv, X)
     elif op == "tas":
         expr = "TO(atomic_flag_test_and_set(&%s))" % lv
+    elif op == "tas_x":
+        expr = "TO(atomic_flag_test_and_set_explicit(&%s, %s))" % (lv, X)
+    elif op in ("load", "load_x"):
+        expr = "TO(atomic_load(&%s))" % lv if op == "load" else "TO(atomic_load_explicit(&%s, %s))" % (lv, X)
+    elif op in ("store", "store_x", "init", "clear", "clear_x"):
+        pre = {"store": "atomic_store(&%s, %s); " % (lv, conv), "store_x": "atomic_store_explicit(&%s, %s, %s); " % (lv, conv, X),
+               "init": "atomic_init(&%s, %s); " % (lv, conv), "clear": "atomic_flag_clear(&%s); " % lv,
+               "clear_x": "atomic_flag_clear_explicit(&%s, %s); " % (lv, X)}[op]
+        expr = "0L"
     elif op in ("cas_s", "cas_w", "cas_i"):
-        d, ea = eaddr("xx")
-        pre = "%s xx = FROM(*e); %sL rr = atomic_compare_exchange_%s(&%s, %s, %s); *e = TO(xx); " % (
-            T, d, "weak" if op == "cas_w" else "strong", lv, ea, "(int)%s + 0" % aexpr if op == "cas_i" else conv)
+        sd, xl, xa = expected_object(T, ok.get("S", "local"), "xx")
+        d, ea, cntE = eaddr(xa)
+        pre = "L rr; %s%s = FROM(*e); %srr = atomic_compare_exchange_%s(&%s, %s, %s); *e = TO(%s); " % (
+            sd, xl, d, "weak" if op == "cas_w" else "strong", lv, ea, "(int)%s + 0" % aexpr if op == "cas_i" else conv, xl)
         expr = "rr"
+        guarded = True
+    elif op in ("cas_sr", "cas_wr"):
+        # the expected and the desired value are object representations (low bytes of *e and of a): no conversion
+        sd, xl, xa = expected_object(T, ok.get("S", "local"), "xx")
+        pre = ("L rr; L o = 0; %s dd = *(%s *)&a; %s%s = *(%s *)e; rr = atomic_compare_exchange_%s(&%s, %s, dd); *(%s *)&o = %s; *e = o; "
+               % (T, T, sd, xl, T, "weak" if op == "cas_wr" else "strong", lv, xa, T, xl))
+        expr = "rr"
+        guarded = True
+    elif op == "xchg_r":
+        pre = "L o = 0; %s dd = *(%s *)&a; %s ov = atomic_exchange(&%s, dd); *(%s *)&o = ov; " % (T, T, T, lv, T)
+        expr = "o"
+    elif op == "casloop_r":
+        # exchange written as a compare-exchange loop: terminates only if equal representations compare equal
+        sd, xl, xa = expected_object(T, ok.get("S", "local"), "old")
+        pre = ("L o = 0; %s dd = *(%s *)&a; %s%s = %s; do { } while (!atomic_compare_exchange_weak(&%s, %s, dd)); *(%s *)&o = %s; "
+               % (T, T, sd, xl, lv, lv, xa, T, xl))
+        expr = "o"
+        guarded = True
     elif op == "casloop":
         # the initial read is a separate expression: it always uses the plain designator
-        d, ea = eaddr("old")
+        sd, xl, xa = expected_object(T, ok.get("S", "local"), "old")
+        d, ea, cntE = eaddr(xa)
         lv0 = lv if "A" not in ok else (lvalue(tn, form)[1] if form != "aindex" else "ga_%s[1]" % tn)
         if dkind == "priv":
-            pre = "%s old = %s; %s new; %sdo { new = old + %s; } while (!atomic_compare_exchange_weak(&%s, %s, new)); " % (
-                T, lv0, T, d, rhs, lv, ea)
+            pre = "%s new; %s%s = %s; %sdo { new = %s + %s; } while (!atomic_compare_exchange_weak(&%s, %s, new)); " % (
+                T, sd, xl, lv0, d, xl, rhs, lv, ea)
         else:                                                      # the desired value is computed inside the operand
-            pre = "%s old = %s; %s new; %sdo { } while (!atomic_compare_exchange_weak(&%s, %s, (new = old + %s))); " % (
-                T, lv0, T, d, lv, ea, rhs)
+            pre = "%s new; %s%s = %s; %sdo { } while (!atomic_compare_exchange_weak(&%s, %s, (new = %s + %s))); " % (
+                T, sd, xl, lv0, d, lv, ea, xl, rhs)
         expr = "TO(new)"
+        guarded = True
     elif op.startswith("f"):
         f = op[1:].split("_")[0]
         if op.endswith("_x"):
-            expr = "TO(atomic_fetch_%s_explicit(&%s, %s, memory_order_seq_cst))" % (f, lv, rhs)
+            expr = "TO(atomic_fetch_%s_explicit(&%s, %s, %s))" % (f, lv, rhs, X)
         else:
             expr = "TO(atomic_fetch_%s(&%s, %s))" % (f, lv, rhs)
     else:
         raise core.HarnessError("unknown op " + op)
     name = body_name(tn, form, op, okey, const)
+    end = ""
+    if guarded or cntA or cntE or cntD:
+        end = "vp_body_end(%s, %s, %s); " % (cntA or "-1L", cntE or "-1L", cntD or "-1L")
     if form in AUTO_FORMS:
-        return name, "L %s(void *p, L a, L *e) { %s%sL r = %s; vp_auto_end(r, *e); return r; }\n" % (name, decl, pre, expr)
-    return name, "L %s(void *p, L a, L *e) { %s%sreturn %s; }\n" % (name, decl, pre, expr)
+        end += "vp_auto_end(r, *e); "
+    # r is declared first: with S=last the expected-value object is the last object the body declares
+    return name, "L %s(void *p, L a, L *e) { L r; %s%sr = %s; %sreturn r; }\n" % (name, decl, pre, expr, end)
 
 
 def info_text(tn, form):
     name = "info_%s_%s" % (tn, form)
     T = "T_%s" % tn
+    extra = ""
     if form == "deref":
         rows = ("(char *)arena + 16", "sizeof(%s)" % T, "arena", "32", "(char *)arena + 16")
     elif form == "global":
         rows = ("&g_%s" % tn, "sizeof(%s)" % T, "&g_%s" % tn, "sizeof(%s)" % T, "arena")
+        # the guard objects defined directly before and after the atomic object (what = 6: how many, 10+3k: address,
+        # 11+3k: size, 12+3k: region tag of the runtime)
+        extra = ("case 6: return 2; case 10: return (L)gpre_%s; case 11: return sizeof gpre_%s; case 12: return 5; "
+                 "case 13: return (L)gpost_%s; case 14: return sizeof gpost_%s; case 15: return 6; " % (tn, tn, tn, tn))
     elif form == "gmember":
         rows = ("&gs_%s.m" % tn, "sizeof(%s)" % T, "&gs_%s" % tn, "sizeof gs_%s" % tn, "arena")
     elif form == "pmember":
@@ -292,22 +448,27 @@ def info_text(tn, form):
     else:
         raise core.HarnessError(form)
     return name, ("L %s(void *arena, L what) { switch (what) { case 0: return (L)(%s); case 1: return (L)(%s); "
-                  "case 2: return (L)(%s); case 3: return (L)(%s); case 5: return (L)(%s); } return 0; }\n"
-                  % ((name,) + rows))
+                  "case 2: return (L)(%s); case 3: return (L)(%s); case 5: return (L)(%s); %s} return 0; }\n"
+                  % ((name,) + rows + (extra,)))
 
 
 PRELUDE = """#include <stdatomic.h>
 typedef long L;
 void vp_auto_begin(void *, long);
 void vp_auto_end(long, long);
+void vp_guard(long, void *, long, void *, long);
+void *vp_static(long);
+void vp_body_end(long, long, long);
 """
 
 TREIBER = """struct node_t { struct node_t *next; long val; };
 struct tstack { _Atomic(struct node_t *) top; struct node_t nodes[8]; };
 L f_push_p8_treiber(void *p, L a, L *e) {
   struct tstack *s = p; struct node_t *n = &s->nodes[a]; n->val = a;
-  struct node_t *old = s->top;
+  char ge0[8]; struct node_t *old; char ge1[8]; vp_guard(2, ge0, 8, 0, 0); vp_guard(3, ge1, 8, 0, 0);
+  old = s->top;
   do { n->next = old; } while (!atomic_compare_exchange_weak(&s->top, &old, n));
+  vp_body_end(-1, -1, -1);
   return 0;
 }
 L info_p8_treiber(void *arena, L what) {
@@ -378,10 +539,13 @@ def unit_source(tn, specs=None, treiber=None, exclude=(), chunk=0):
     declare them).  specs: [(form, op, operand key, const)] -> (text, [body names], [(info name, has_fin)])"""
     specs = default_specs(tn) if specs is None else specs
     T = "T_%s" % tn
-    ext = "extern " if chunk else ""
     out = [PRELUDE, "typedef %s %s;\n" % (TINFO[tn][1], T), conv_macros(tn), HELPERS,
            "struct S_%s { char pad; _Atomic %s m; char tail; };\n" % (tn, T),
-           "%s_Atomic %s g_%s;\n%sstruct S_%s gs_%s;\n%s_Atomic %s ga_%s[3];\n" % (ext, T, tn, ext, tn, tn, ext, T, tn)]
+           # initialised definitions (no common symbols): emitted in this order, the guards adjoin the object
+           ("extern char gpre_%s[8]; extern _Atomic %s g_%s; extern char gpost_%s[8];\nextern struct S_%s gs_%s;\n"
+            "extern _Atomic %s ga_%s[%d];\n" if chunk else
+            "char gpre_%s[8] = {1}; _Atomic %s g_%s = 0; char gpost_%s[8] = {1};\nstruct S_%s gs_%s = {1};\n"
+            "_Atomic %s ga_%s[%d] = {0};\n") % (tn, T, tn, tn, tn, tn, T, tn, ARRAY_LEN)]
     opnames, infos, seen = [], [], set()
     for form in FORMS:
         if chunk == 0:
@@ -718,10 +882,74 @@ f_st_preserve:
   mov $-12345, %rax
   pop %rbx
   ret
+  .globl f_st_guard
+f_st_guard:
+  push %rbx
+  sub $32, %rsp
+  mov %rdi, %rbx
+  mov %rsi, 24(%rsp)
+  mov $2, %edi
+  lea 8(%rsp), %rsi
+  mov $8, %edx
+  xor %ecx, %ecx
+  xor %r8d, %r8d
+  call vp_guard
+  movb $0, 9(%rsp)
+  mov $-1, %rdi
+  mov $-1, %rsi
+  mov $-1, %rdx
+  call vp_body_end
+  mov 24(%rsp), %rsi
+  mov %esi, %eax
+  lock xadd %eax, (%rbx)
+  add %esi, %eax
+  movslq %eax, %rax
+  add $32, %rsp
+  pop %rbx
+  ret
+  .globl f_st_rbx
+f_st_rbx:
+  mov %esi, %eax
+  lock xadd %eax, (%rdi)
+  add %esi, %eax
+  movslq %eax, %rax
+  mov $0x1234, %rbx
+  ret
+  .globl f_st_evals
+f_st_evals:
+  push %rbx
+  push %r12
+  sub $8, %rsp
+  mov %rdi, %rbx
+  mov %rsi, %r12
+  mov $2, %edi
+  mov $-1, %rsi
+  mov $-1, %rdx
+  call vp_body_end
+  mov %r12d, %eax
+  lock xadd %eax, (%rbx)
+  add %r12d, %eax
+  movslq %eax, %rax
+  add $8, %rsp
+  pop %r12
+  pop %rbx
+  ret
+  .globl f_st_objguard
+f_st_objguard:
+  mov %esi, %eax
+  lock xadd %eax, (%rdi)
+  add %esi, %eax
+  movslq %eax, %rax
+  movb $0, 4(%rdi)
+  ret
   .section .note.GNU-stack,"",@progbits
 """
 # f_st_preserve: registers, RFLAGS and SSE state survive a scheduling point (stub + coroutine switches)
-SELFTEST_EXPECT = {"f_st_preserve": {None}, "f_st_xadd": {None}, "f_st_opaque": {None}, "f_st_plainrmw": {"unlocked-rmw-on-atomic-object"},
+# f_st_guard writes into a registered guard region of its frame, f_st_objguard into the byte after the atomic object,
+# f_st_rbx returns with a changed callee-saved register, f_st_evals reports an operand evaluated twice
+SELFTEST_EXPECT = {"f_st_guard": {"bytes-before-expected-object-modified"}, "f_st_rbx": {"callee-saved-rbx-not-preserved"},
+                   "f_st_evals": {"operand-A-evaluated-2-times"}, "f_st_objguard": {"bytes-after-atomic-object-modified"},
+                   "f_st_preserve": {None}, "f_st_xadd": {None}, "f_st_opaque": {None}, "f_st_plainrmw": {"unlocked-rmw-on-atomic-object"},
                    "f_st_loadstore": {None, "not-linearizable"}, "f_st_nolock": {"unlocked-cmpxchg-on-atomic-object"}}
 
 
@@ -904,6 +1132,15 @@ def apply_op(tn, op, state, a, exp, variant="c11"):
     atomicity failure."""
     if op == "push":
         return [(state + (a,), 0, exp)]
+    op = RAW_AS.get(op, op)                                         # representation forms: tn is the integer type of that size
+    if op in ("load", "load_x"):
+        return [(state, as_long(tn, state), exp)]
+    if op in ("store", "store_x", "init"):
+        return [(from_long(tn, a), 0, exp)]
+    if op in ("clear", "clear_x"):
+        return [(0, 0, exp)]
+    if op == "tas_x":
+        op = "tas"
     one = 1.0 if TINFO[tn][4] == "flt" else 1
     if op in COMPOUND:
         n = binop(tn, op, state, operand(tn, a))
@@ -935,9 +1172,10 @@ def apply_op(tn, op, state, a, exp, variant="c11"):
 
 
 def parse_history(text):
-    """'c0.0 c1.0 r1.0=5:0 r0.0=7:0 F=12 N=1 U=-' -> (events, final, neighbours_ok, unlocked)"""
+    """'c0.0 c1.0 r1.0=5:0 r0.0=7:0 F=12 G=- R=- X=- U=-' -> (events, final, flags {G, R, X, U: text or None})"""
     ev = []
-    final = nb = unl = None
+    final = None
+    flags = {"G": None, "R": None, "X": None, "U": None}
     for tok in text.split():
         if tok[0] == "c" and tok[1].isdigit():
             t, i = tok[1:].split(".")
@@ -949,11 +1187,56 @@ def parse_history(text):
             ev.append(("r", int(t), int(i), int(r), int(e)))
         elif tok.startswith("F="):
             final = int(tok[2:])
-        elif tok.startswith("N="):
-            nb = int(tok[2:])
-        elif tok.startswith("U="):
-            unl = tok[2:]
-    return ev, final, nb, unl
+        elif tok[:2] in ("G=", "R=", "X=", "U="):
+            flags[tok[0]] = tok[2:] if tok[2:] != "-" else None
+    return ev, final, flags
+
+
+def spec_type(prog):
+    """the type whose value domain the sequential specification uses: programs of the representation forms on a
+    floating object are specified on the unsigned integer of the same size (C11 7.17.7.4: compare-exchange compares
+    and copies object representations)"""
+    tn = prog["type"]
+    if prog["op"] in RAW_OPS:
+        return "u%d" % TINFO[tn][2]
+    return tn
+
+
+def reachable_values(tn, prog):
+    """every value (as long) the object can hold in any sequential execution of any subset of the operations"""
+    ops = [o for th in prog["threads"] for o in th]
+    seen = set()
+
+    def rec(state, left):
+        seen.add(as_long(tn, state))
+        for i in left:
+            for ns, r, e in apply_op(tn, ops[i]["op"], state, ops[i]["arg"], ops[i]["exp"]):
+                rec(ns, left - {i})
+    rec(from_long(tn, prog["init"]), frozenset(range(len(ops))))
+    return seen
+
+
+def failure_report_class(tn, prog, events):
+    """C11 7.17.7.4: a compare-exchange that fails stores the value it found in the object into the expected-value
+    object.  Classes of a history that no linearization explains: a failed compare-exchange reports a value the object
+    can never hold; a failed STRONG compare-exchange reports the expected value itself (the weak form may do so:
+    spurious failure)."""
+    if prog["obj"].endswith("treiber"):
+        return None
+    held = None
+    for ev in events:
+        if ev[0] != "r":
+            continue
+        o = prog["threads"][ev[1]][ev[2]]
+        if o["op"] not in CAS_OPS or ev[3] != 0:
+            continue
+        if held is None:
+            held = reachable_values(tn, prog)
+        if ev[4] not in held:
+            return "failed-compare-exchange-reports-value-the-object-never-held"
+        if o["op"] in ("cas_s", "cas_i", "cas_sr") and ev[4] == as_long(tn, from_long(tn, o["exp"])):
+            return "strong-compare-exchange-fails-reporting-the-expected-value"
+    return None
 
 
 def linearizable(tn, prog, events, final, variant="c11", retmask=None):
@@ -1005,11 +1288,17 @@ def judge(prog, htext):
     if htext.startswith("CRASH-"):                      # fault or hang of the code under test (see c16_rt.c)
         return {"CRASH-SEGV": "crash-sigsegv", "CRASH-BUS": "crash-sigbus", "CRASH-ILL": "crash-sigill",
                 "CRASH-FPE": "crash-sigfpe", "CRASH-HANG": "hang-without-scheduling-point"}.get(htext, "crash")
-    events, final, nb, unl = parse_history(htext)
-    if unl and unl != "-":
-        return "unlocked-%s-on-atomic-object" % re.sub(r"\d+$", "", unl)
-    if nb == 0:
-        return "neighbour-bytes-modified"
+    tn = spec_type(prog)
+    events, final, flags = parse_history(htext)
+    if flags["U"]:
+        return "unlocked-%s-on-atomic-object" % re.sub(r"\d+$", "", flags["U"])
+    if flags["X"]:                                      # e.g. A2: the object designator was evaluated twice
+        return "operand-%s-evaluated-%s-times" % (flags["X"][0], {"9": "many"}.get(flags["X"][1:], flags["X"][1:]))
+    if flags["G"]:                                      # E-after: guard bytes after an expected-value object
+        who, side = flags["G"].split("-")
+        return "bytes-%s-%s-object-modified" % (side, {"E": "expected", "O": "atomic"}[who])
+    if flags["R"]:
+        return "callee-saved-%s-not-preserved" % flags["R"]
     if linearizable(tn, prog, events, final):
         return None
     size = TINFO[tn][2]
@@ -1017,6 +1306,9 @@ def judge(prog, htext):
         return "returns-new-value-but-atomic"
     if size < 8 and linearizable(tn, prog, events, final, retmask=(1 << (8 * size)) - 1):
         return "return-value-upper-bits-but-atomic"
+    frc = failure_report_class(tn, prog, events)
+    if frc:
+        return frc
     # sequential history (no two operations overlap)?
     seq = all(events[i][0] == "c" and events[i + 1][0] == "r" for i in range(0, len(events) - 1, 2))
     return "sequential-semantics" if seq else "not-linearizable"
@@ -1034,6 +1326,29 @@ def values(tn, op, variant):
     M = (1 << bits) - 1
     top = 1 << (bits - 1)
     z = [[0, 0], [0, 0], [0, 0]]
+    if op in PLAIN_OPS:                                   # stored values: those of exchange; load ignores its argument
+        op = "xchg"
+    if op == "tas_x":
+        op = "tas"
+    if op in ("clear", "clear_x"):
+        return (1, z, z) if variant == 0 else None
+    if op in RAW_OPS:
+        # object representations: NaNs with payloads of both signs (quiet: a plain copy never alters them), both zeros
+        if size == 4:
+            NA, NB, PZ, NZ, ONE = 0x7fc00001, 0xffc00123, 0, 0x80000000, 0x3f800000
+        else:
+            NA, NB, PZ, NZ, ONE = 0x7ff8000000000001, 0xfff8000000000123, 0, 0x8000000000000000, 0x3ff0000000000000
+        if op in ("cas_sr", "cas_wr"):
+            if variant == 0:      # the object holds a NaN bit-identical to the expected value: must be exchanged
+                return NA, [[NB, ONE], [ONE, NA], [PZ, NZ]], [[NA, NA], [NA, NB], [NA, ONE]]
+            if variant == 1:      # -0.0 against +0.0: equal values, different representations: must fail and report -0.0
+                return NZ, [[ONE, PZ], [NA, ONE], [NB, NZ]], [[PZ, NZ], [PZ, NZ], [NZ, PZ]]
+            return None
+        if variant == 0:
+            return NA, [[NB, PZ], [NZ, ONE], [NA, NB]], z
+        if variant == 1:
+            return NZ, [[PZ, NA], [NB, NZ], [ONE, PZ]], z
+        return None
     if kind == "bool":
         if variant != 0:
             return None
@@ -1210,27 +1525,38 @@ def make_program(tn, form, op, cfg, variant, bound, partner=None, okey=""):
 
 def operand_keys(tn, op, form, tier):
     """The operand-kind combinations explored for (type, op, form), default excluded.
-    quick:    deref: every position x every kind, D=const, and call5/clob/nest in all positions at once;
-              p->m and a[i]: designator given by clob and nest
-    thorough: every form: every position x every kind, D=const, every kind in all positions at once;
-              deref on int/long/pointer/double for one operation per family: the full cross product"""
+    quick:    deref: every position x every kind, D=const, call5/clob/nest/inc/cnt in all positions at once, every
+              storage of the expected-value object; p->m and a[i]: designator given by clob, nest, inc, cnt
+    thorough: every form: every position x every kind, D=const, every kind in all positions at once, every storage;
+              deref: every storage x every kind of the expected-address operand; deref on int/long/pointer/double for
+              one operation per family: the full cross product of the pure kinds and of the side-effecting kinds"""
     pos = positions(op, form)
     keys = []
     quick = tier == "quick"
     if quick and form != "deref":
-        return ["A=" + k for k in ("clob", "nest")] if form in ("pmember", "aindex") else []
+        keys = ["A=" + k for k in ["clob", "nest"] + SIDE_KINDS] if form in ("pmember", "aindex") else []
+        return [k for k in keys if key_allowed(op, form, k)]
     for q in pos:
         for k in KINDS + (["const"] if q == "D" else []):
             keys.append("%s=%s" % (q, k))
     if len(pos) > 1:
-        for k in (("call5", "clob", "nest") if quick else KINDS):
+        for k in (["call5", "clob", "nest"] + SIDE_KINDS if quick else KINDS):
             keys.append(",".join("%s=%s" % (q, k) for q in pos))
+    if has_expected(op):
+        keys += ["S=" + st for st in STORAGES]
+        if not quick and form == "deref" and "E" in pos:
+            keys += ["E=%s,S=%s" % (k, st) for st in STORAGES for k in KINDS]
     if not quick and form == "deref" and tn in CROSS_TYPES and op in CROSS_OPS:
-        for combo in itertools.product(*[["priv"] + KINDS + (["const"] if q == "D" else []) for q in pos]):
-            k = ok_key(dict(zip(pos, combo)))
-            if k and k not in keys:
-                keys.append(k)
-    return keys
+        for alphabet in (PURE_KINDS, SIDE_KINDS):
+            for combo in itertools.product(*[["priv"] + alphabet + (["const"] if q == "D" else []) for q in pos]):
+                k = ok_key(dict(zip(pos, combo)))
+                if k:
+                    keys.append(k)
+    out = []
+    for k in keys:
+        if k not in out and key_allowed(op, form, k):
+            out.append(k)
+    return out
 
 
 CROSS_TYPES = ("i4", "i8", "p8", "f8")
@@ -1254,7 +1580,7 @@ def s64(v):
 
 
 def program_line(p, opidx, objidx, schedule=None, mode="S", pid=None):
-    init = p["init"] if p["form"] == "treiber" else raw(p["type"], from_long(p["type"], p["init"]))
+    init = p["init"] if p["form"] == "treiber" else raw(spec_type(p), from_long(spec_type(p), p["init"]))
     w = ["P", pid or p["id"], str(objidx[p["obj"]]), str(s64(init)), str(p["mode"]), str(p["bound"]), str(len(p["threads"]))]
     for th in p["threads"]:
         w.append(str(len(th)))
@@ -1266,7 +1592,8 @@ def program_line(p, opidx, objidx, schedule=None, mode="S", pid=None):
 
 
 MIXED = [("add", "xchg"), ("add", "cas_s"), ("or", "and"), ("xchg", "cas_s"), ("postinc", "fadd"), ("casloop", "sub"),
-         ("fxor", "add"), ("cas_w", "predec"), ("shl", "add"), ("mul", "xchg")]
+         ("fxor", "add"), ("cas_w", "predec"), ("shl", "add"), ("mul", "xchg"), ("store", "add"), ("store", "casloop"),
+         ("load", "xchg")]
 
 
 def plan(tier):
@@ -1306,7 +1633,7 @@ def plan(tier):
                         cfgs = [("1x2", -1), ("2x1", -1), ("2x2", -1), ("3x1", 3)]
                     else:
                         cfgs = [("1x2", -1), ("2x1", -1), ("2x2", 2)]
-                    for v in (0, 1) if (not quick and single and "E" in positions(op, form)) else (0,):
+                    for v in (0, 1) if (op in RAW_OPS or (not quick and single and "E" in positions(op, form))) else (0,):
                         for cfg, b in cfgs:
                             if form in AUTO_FORMS and CONFIGS[cfg][1] > 1:
                                 continue
@@ -1393,7 +1720,7 @@ def _explore_batch(args):
     st, out, err, crashes = run_programs(binary, [program_line(p, opidx, objidx) for p in progs], [p["id"] for p in progs], timeout)
     summ = {"status": st, "error": None, "timed_out": st == "timeout" or "\nTIMEOUT " in out, "done": [],
             "schedules": 0, "decisions": 0, "validated": 0, "distinct": 0, "by_pre": {}, "by_cfg": {}, "cas_failed": 0,
-            "livelocks": 0, "bad": {}, "nbad": {}, "samples": [], "selftest": {}, "crashes": crashes, "by_ok": {},
+            "livelocks": 0, "guardchecks": 0, "bad": {}, "nbad": {}, "samples": [], "selftest": {}, "crashes": crashes, "by_ok": {},
             "cas_failed_by_ok": {}}
     if st != "timeout" and (st != 0 or "HARNESS-ERROR" in out):
         m = re.search(r"HARNESS-ERROR.*", out)
@@ -1414,6 +1741,7 @@ def _explore_batch(args):
         summ["decisions"] += int(r["stats"]["decisions"])
         summ["validated"] += int(r["stats"]["validated"])
         summ["livelocks"] += int(r["stats"]["livelocks"])
+        summ["guardchecks"] += int(r["stats"].get("guardchecks", 0))
         summ["by_cfg"][p["cfg"]] = summ["by_cfg"].get(p["cfg"], 0) + n
         for kv in r["stats"]["by_pre"].strip(",").split(","):
             k, v = kv.split(":")
@@ -1425,7 +1753,7 @@ def _explore_batch(args):
             c[0] += 1
             c[1] += n
         for h in r["hist"]:
-            if p["op"].startswith("cas") and re.search(r"r\d\.\d=0:", h[4]):
+            if p["op"] in CAS_OPS and re.search(r"r\d\.\d=0:", h[4]):
                 summ["cas_failed"] += h[0]
                 for k in oks:
                     summ["by_ok"][k][2] += h[0]
@@ -1521,7 +1849,7 @@ def sig_of(prog, dev):
     """C16|<op family>[/float][+<partner family>]|<lvalue form>[;<operand positions filled with a call or a nested
     atomic operation, e.g. D or A+E+D>]|<deviation class>.  The operand kinds are in the description and the artefact."""
     flt = "/float" if TINFO.get(prog.get("type"), (0, 0, 0, 0, ""))[4] == "flt" else ""
-    pos = "+".join(q for q in POSITIONS if q in ok_parse(prog.get("ok") or ""))
+    pos = "+".join(q for q in POSITIONS + "S" if q in ok_parse(prog.get("ok") or ""))
     return "C16|%s|%s|%s" % (family(prog["op"]) + flt + ("+" + family(prog["partner"]) if prog["partner"] else ""),
                              prog["form"] + (";" + pos if pos else ""), dev)
 
@@ -1664,10 +1992,11 @@ def run(ctx):
     done = set()
     schedules = decisions = validated = distinct = cas_failed = livelocks = 0
     by_pre, cfgcount, bad, nbad, by_ok = {}, {}, {}, {}, {}
-    crashes = 0
+    crashes = guardchecks = 0
     timed_out = False
     vrep = 0
     for sm in summs:
+        guardchecks += sm["guardchecks"]
         done.update(sm["done"])
         timed_out = timed_out or sm["timed_out"]
         schedules += sm["schedules"]; decisions += sm["decisions"]; validated += sm["validated"]
@@ -1707,9 +2036,11 @@ def run(ctx):
         raise core.HarnessError("vacuous: no schedule in which a compare-exchange failed")
     if by_pre.get(1, 0) == 0:
         raise core.HarnessError("vacuous: no schedule with a preemption")
+    if guardchecks < schedules:
+        raise core.HarnessError("vacuous: %d guard regions examined in %d schedules" % (guardchecks, schedules))
     # operand dimension: every position x kind must have been explored, and for the expected/desired positions of
     # compare-exchange some schedules must have taken the failure (write-back) path
-    want = ["%s=%s" % (q, k) for q in POSITIONS for k in KINDS] + ["D=const", "plain"]
+    want = ["%s=%s" % (q, k) for q in POSITIONS for k in KINDS] + ["D=const", "plain"] + ["S=" + st for st in STORAGES]
     if not timed_out and not bad:
         for k in want:
             if by_ok.get(k, [0, 0, 0])[1] == 0:
@@ -1734,7 +2065,7 @@ def run(ctx):
         p, dev = bad[sig][0], bad[sig][1]
         if not p.get("ok"):
             continue
-        pos = [q for q in POSITIONS if q in ok_parse(p["ok"])]
+        pos = [q for q in POSITIONS + "S" if q in ok_parse(p["ok"])]
         simpler = [""] + (["%s=x" % q for q in pos] if len(pos) > 1 else [])
         if any(sig_of({"op": p["op"], "partner": None, "form": p["form"], "type": p["type"], "ok": k}, dev) in bad for k in simpler):
             implied += nbad[sig]
@@ -1771,15 +2102,21 @@ def run(ctx):
               programs=len(done), distinct_histories_judged=distinct, livelocked_schedules=livelocks, violating_histories_replayed_identically=vrep,
               schedules_by_preemptions={str(k): by_pre[k] for k in sorted(by_pre)}, schedules_by_config=cfgcount,
               schedules_with_failed_cas=cas_failed, violating_schedules_by_sig=nbad,
-              schedules_ending_in_crash_of_code_under_test=crashes,
+              schedules_ending_in_crash_of_code_under_test=crashes, guard_regions_examined=guardchecks,
               operand_kinds={k: {"programs": v[0], "schedules": v[1], "schedules_with_failed_cas": v[2]} for k, v in sorted(by_ok.items())})
     ctx.cover(rule="every program = (type in %s) x (lvalue form in %s) x (operation of ops_for(type)) x (operand kinds: "
                    "each operand position A=object designator, E=expected address, D=value operand filled with one of "
-                   "priv(default), const(D only), %s; combinations per tier in operand_keys()) x (threads x ops in 1x2, 2x1, "
-                   "2x2, 3x1, 3x2) x (value variant), ALL schedules or all schedules within the stated preemption bound; "
-                   "a history is judged against the C11 sequential specification by exhaustive linearization"
-                   % ([t[0] for t in TYPES], FORMS + AUTO_FORMS, KINDS),
+                   "priv(default), const(D only), %s, of which %s have a side effect and must be evaluated exactly once; "
+                   "combinations per tier in operand_keys()) x (storage of the expected-value object: local(default), %s) x "
+                   "(threads x ops in 1x2, 2x1, 2x2, 3x1, 3x2) x (value variant; floating objects also NaN payloads and "
+                   "negative zero as representations), ALL schedules or all schedules within the stated preemption bound; "
+                   "guard bytes directly before and after every atomic object and every expected-value object are "
+                   "examined after every operation, callee-saved registers after every body; a history is judged against "
+                   "the C11 sequential specification by exhaustive linearization"
+                   % ([t[0] for t in TYPES], FORMS + AUTO_FORMS, KINDS, SIDE_KINDS, STORAGES),
               types=[t[1] for t in TYPES], operand_positions=list(POSITIONS), operand_kinds_alphabet=["priv", "const"] + KINDS,
+              side_effecting_operand_kinds=SIDE_KINDS, expected_object_storages=["local"] + STORAGES,
+              representation_value_forms=RAW_OPS, macros_without_rmw=PLAIN_OPS + ["clear", "clear_x"],
               bodies_by_operand_key_count=len({o["ok"] for p in progs for th in p["threads"] for o in th}))
     for sm in summs[:: max(1, len(summs) // 5)][:5]:
         for x in sm["samples"]:
@@ -1798,8 +2135,13 @@ def run(ctx):
     ctx.assume("operand helpers (h1/h5/h7/hf compiled by chibicc in the same unit, vp_clobber in assembly) and the nested "
                "atomic operations touch only thread-private memory, so they add no scheduling points; nested atomic "
                "operations on a second SHARED object are not explored")
-    ctx.assume("floating atomics: float and double only (no _Atomic long double); values are exact multiples of 0.25, "
-               "no NaN, infinities, negative zero or rounding")
+    ctx.assume("floating atomics: float and double only (no _Atomic long double); arithmetic values are exact multiples "
+               "of 0.25 (no rounding); quiet NaNs with payloads and negative zero only as representations handed to "
+               "compare-exchange / exchange (no signaling NaN, no arithmetic on them, no infinities)")
+    ctx.assume("guard bytes: 8 bytes on each side of an automatic or static expected-value / atomic object (the whole "
+               "aggregate for members and elements); a write further away is seen only if it hits another guard, a "
+               "callee-saved register slot or makes the body fault; the memory_order operand and atomic_is_lock_free / "
+               "kill_dependency / the fences are outside the operand dimension")
 
 
 if __name__ == "__main__":
